@@ -436,6 +436,32 @@ def b_inverse(ctx):
                 continue
             if not close(got, float(v)):
                 ctx.fail('C16:inverse:stress(strain(s)):scalar', f'RambergOsgood({E}, {K}, {n}): stress(strain({v})) = {got}', None)
+        # Hooke's laws with components of different number types: a zero given as python int, an integer array of MPa values next to fractional components -
+        # no component may be truncated (added after seed C16-e cast all components to the dtype of the first one)
+        from pylife.materiallaws.hookeslaw import HookesLaw2dPlaneStress, HookesLaw2dPlaneStrain
+        if n == ns[0]:
+            ps_, pe_, h3_ = HookesLaw2dPlaneStress(E, 0.3), HookesLaw2dPlaneStrain(E, 0.3), HookesLaw3d(E, 0.3)
+            mixed = {'python int first': (0, 50.5, 20.25), 'int array first': (np.array([100, 200, -300]), np.array([50.5, -20.25, 10.75]), np.array([0.5, 0.25, -0.75])),
+                     'int last': (10.5, 0.25, 3)}
+            for mname, comps in mixed.items():
+                fl = tuple(np.asarray(c_, dtype=float) for c_ in comps)
+                ctx.case(True, key=(E, K, 'hooke-mixed', mname))
+                for lname, law_ in (('plane stress', ps_), ('plane strain', pe_)):
+                    a_ = [np.asarray(v_, dtype=float) for v_ in law_.strain(*comps)]
+                    b_ = [np.asarray(v_, dtype=float) for v_ in law_.strain(*fl)]
+                    a2 = [np.asarray(v_, dtype=float) for v_ in law_.stress(*comps)]
+                    b2 = [np.asarray(v_, dtype=float) for v_ in law_.stress(*fl)]
+                    if not all(np.allclose(x_, y_, rtol=1e-12, atol=0) for x_, y_ in zip(a_ + a2, b_ + b2)):
+                        ctx.fail(f'C16:hooke:number-types:{lname}', f'{lname}: components given as {mname} {[np.asarray(c_).tolist() for c_ in comps]} give another result than the same numbers as floats', None)
+                six = comps + fl
+                a_ = [np.asarray(v_, dtype=float) for v_ in h3_.strain(*six)]
+                b_ = [np.asarray(v_, dtype=float) for v_ in h3_.strain(*(fl + fl))]
+                if not all(np.allclose(x_, y_, rtol=1e-12, atol=0) for x_, y_ in zip(a_, b_)):
+                    ctx.fail('C16:hooke:number-types:3D', f'3D: components given as {mname} give another result than the same numbers as floats', None)
+            ro_i = RambergOsgood(E, K, n)
+            si = np.array([100, 0, -200])
+            if not np.allclose(np.asarray(ro_i.strain(si), dtype=float), np.asarray(ro_i.strain(si.astype(float)), dtype=float), rtol=1e-12, atol=0):
+                ctx.fail('C16:ramberg-osgood:number-types', 'strain of an integer stress array differs from the float array', None)
         h1, h3 = HookesLaw1d(E), HookesLaw3d(E, 0.3)
         for cname, mk in list(containers.items())[:2]:
             x = mk(s)
